@@ -424,9 +424,12 @@ fn windows_and_shades_from_bdl(
                         point![lfin.depth, 0.0],
                     ],
                 };
+                // El id incluye el lado: dos aletas iguales cuya posición no se distingue en f32
+                // (hueco con coordenadas enormes) no deben compartir id
+                let name = format!("{}_left_fin", win.name);
                 shades.push(Shade {
-                    id: uuid_from_obj(&format!("{:?}-{:?}-{:?}", win.name, lfin, geometry)),
-                    name: format!("{}_left_fin", win.name),
+                    id: uuid_from_obj(&format!("{:?}-{:?}-{:?}", name, lfin, geometry)),
+                    name,
                     geometry,
                 });
             }
@@ -447,9 +450,10 @@ fn windows_and_shades_from_bdl(
                         point![rfin.depth, 0.0],
                     ],
                 };
+                let name = format!("{}_right_fin", win.name);
                 shades.push(Shade {
-                    id: uuid_from_obj(&format!("{:?}-{:?}-{:?}", win.name, rfin, geometry)),
-                    name: format!("{}_right_fin", win.name),
+                    id: uuid_from_obj(&format!("{:?}-{:?}-{:?}", name, rfin, geometry)),
+                    name,
                     geometry,
                 });
             }
